@@ -6,6 +6,8 @@ import CogentModel.Proofs.IndelMapSliceSpec
 import CogentModel.Proofs.IndelMapReversed
 import CogentModel.Proofs.IndelMapAlignSpec
 import CogentModel.Proofs.IndelMapSliceTotal
+import CogentModel.Proofs.IndelMapAdd2
+import CogentModel.Proofs.IndelMapMul
 /-! # C08 — property theorems (gapped-coordinate maps agree with the gapped string)
 
 `abs m : List (Option Nat)` is the gapped string (column ↦ sequence index or gap) a map stands
@@ -140,8 +142,25 @@ theorem reversed_spec (m : IMap) (h : WF m) :
 example : (nucleicReversed (fromGapped [true, false, false, true, true, false])).toOption.map abs
     = some (Gapped.reversed (ofPattern [true, false, false, true, true, false])) := by decide
 
+/-- **`IndelMap.__add__` gives the map of the concatenated string** for any two well-formed maps
+(a trailing gap of the left operand meeting a leading gap of the right one becomes ONE gap), it
+never raises, and the result is well formed. -/
+theorem add_spec (a b : IMap) (ha : WF a) (hb : WF b) :
+    ∃ r, add a b = .ok r ∧ WF r ∧ abs r = Gapped.concat (abs a) (abs b) := add_spec' a b ha hb
+
+example : (add (fromGapped [false, true]) (fromGapped [true, true, false])).toOption
+    = some (fromGapped [false, true, true, true, false]) := by decide
+
+/-- **`IndelMap.__mul__`** (amino-acid alignment → codon alignment): for every scale `k ≥ 1` the
+result is the map of the string with each column repeated `k` times; total, well formed. -/
+theorem mul_spec (m : IMap) (h : WF m) (k : Nat) (hk : 0 < k) :
+    ∃ r, mul m k = .ok r ∧ WF r ∧ abs r = Gapped.scaled (abs m) k := mul_spec' m h k hk
+
+example : (mul (fromGapped [false, true, false]) 3).toOption
+    = some (fromGapped [false, false, false, true, true, true, false, false, false]) := by decide
+
 /- FULL STATEMENTS (not proved):
-   `add_spec`, `merge_spec`, `joined_spec`, `minus_spec`.  They are covered by the
+   `merge_spec`, `joined_spec`, `minus_spec`.  They are covered by the
    exhaustive correspondence (model = code on every layout of length ≤ 8 x every interval) plus the
    exhaustive spec-level differential (code = string). -/
 
